@@ -176,9 +176,16 @@ def createPayload (enc : JVal → String) (f view : JVal) (createOv : Option Ste
   (applyCreateOv createOv view).bind fun v =>
     (withOwner shouldOwn (deepOverlay v f) ownerRef (deepOverlay v f)).bind (prepareForApi enc)
 
-/-- the patch branch: add live references + ours when ours is missing, `_prepare_for_api` -/
+/-- the object the patch branch hands to `_prepare_for_api`: live references + ours when ours is
+    missing; otherwise the target **without** `metadata.ownerReferences` (a merge-patch replaces
+    lists, so the target's own list is only ever applied on create — fa30b95) -/
+def patchView (expected live ownerRef : JVal) (shouldOwn reffed : Bool) : Option JVal :=
+  if shouldOwn && !reffed then withOwner true live ownerRef expected
+  else dropMetaKey "ownerReferences" expected
+
+/-- the patch branch up to the payload -/
 def patchPayload (enc : JVal → String) (expected live ownerRef : JVal) (shouldOwn reffed : Bool) : Option JVal :=
-  (withOwner (shouldOwn && !reffed) live ownerRef expected).bind (prepareForApi enc)
+  (patchView expected live ownerRef shouldOwn reffed).bind (prepareForApi enc)
 
 /-! ## inline overlays with evaluated leaves (what the correspondence instantiates `Step` with) -/
 
